@@ -752,7 +752,60 @@ def kind_of_kw(kw):
     return 'eq'
 
 
+def partial_order_stream(ctx):
+    """outside the model's value type: NaN estimates and sets of labels (partially ordered values) under the comparison
+    filters; judged on the literal clause - selected iff the attribute is there and `value OP filter value` is true"""
+    import operator
+    import random as _random
+    rng = _random.Random('C18/partial-order/%s' % ctx.seed)
+    ops = {'_lt_': operator.lt, '_le_': operator.le, '_gt_': operator.gt, '_ge_': operator.ge, '_ne_': operator.ne}
+
+    def dec(v):
+        return None if v is None else float('nan') if v[0] == 'nan' else set(v[1]) if v[0] == 'set' else float.fromhex(v[1]) if v[0] == 'f' else v[1]
+    cases = []
+    for _ in range(60 if ctx.tier == 'quick' else 1200):
+        use_sets = rng.random() < 0.5
+        tasks = []
+        for _t in range(rng.randint(2, 6)):
+            if use_sets:
+                v = rng.choice([None, 'absent', ['set', sorted(rng.sample(['a', 'b', 'c'], rng.randint(0, 3)))]])
+                tasks.append({'labels': v})
+            else:
+                v = rng.choice([None, 'absent', ['nan'], ['i', rng.randint(0, 3)], ['f', float(rng.choice([0.5, 1.0, 2.5])).hex()]])
+                tasks.append({'estimate': v})
+        attr = 'labels' if use_sets else 'estimate'
+        sfx = rng.choice(list(ops))
+        fv = ['set', sorted(rng.sample(['a', 'b', 'c'], rng.randint(0, 2)))] if use_sets else rng.choice([['i', 1], ['f', float(1.5).hex()], ['nan']])
+        cases.append({'tasks': tasks, 'filters': [[attr + sfx, fv]], 'via': rng.choice(['tasks', 'roots'])})
+    outs = []
+    for i in range(0, len(cases), 100):
+        outs += ctx.impl_run('c18x_impl', cases[i:i + 100])
+    stat = {'cases': len(cases), 'returned': 0, 'raised': 0, 'selected_some_not_all': 0}
+    for c, o in zip(cases, outs):
+        kw, fv = c['filters'][0]
+        attr, sfx = kw[:-4], kw[-4:]
+        want = []
+        for i, t in enumerate(c['tasks']):
+            v = t.get(attr)
+            if v is None or v == 'absent':
+                continue
+            if ops[sfx](dec(v), dec(fv)):
+                want.append(i + 1)
+        if o['code'] != 0:
+            stat['raised'] += 1
+            ctx.failure('C18/partial-order/raised', 'a comparison filter on comparable operands raised %s' % o.get('exc'), {'case': c, 'observed': o})
+            continue
+        stat['returned'] += 1
+        if 0 < len(want) < len(c['tasks']):
+            stat['selected_some_not_all'] += 1
+        if o['ret'] != want:
+            ctx.failure('C18/partial-order/selection', 'filter %s on %s values: selected %s, the comparison holds for %s'
+                        % (kw, 'set' if attr == 'labels' else 'float/NaN', o['ret'], want), {'case': c, 'observed': o})
+    return stat
+
+
 def run(ctx):
+    ctx.coverage_partial = partial_order_stream(ctx)
     n = 3000 if ctx.tier == "quick" else 40000
     cases = list(CORPUS) + [gen_case(ctx.rng) for _ in range(n)]
     obs, codes = evaluate(ctx, cases)
@@ -800,7 +853,7 @@ def run(ctx):
              'kinds and/or a callable key, bulk assignment, WBS-level and list-level remove_all; distinct = distinct cases '
              'whose call raises or selects a non-empty proper subset of the list (assignment: a non-empty list)',
         samples=[{'case': cases[k], 'observed': obs[k]}, {'case': cases[-1], 'observed': obs[-1]}],
-        distribution=dist,
+        distribution=dict(dist, robustness_stream_partially_ordered_values=ctx.coverage_partial),
         traces_validated_against_impl=len(cases),
         comparison='inside Coq (Query/QueryCheck.v check_case): outcome class, returned objects in order, structure and '
                    'type-exact attribute state of every task afterwards, subtrees of removed tasks',
@@ -812,6 +865,8 @@ def run(ctx):
         'datetime, or a list/tuple/set of those (or a str used as container)',
         'keywords whose base name itself ends in "_not" (x_not + _in_) are read by the code as NOT-IN on x: a limit of '
         'the naming convention, mirrored by the model and excluded by the hypothesis of C18_suffix',
+        'NaN and set-valued attributes (partially ordered values) are outside the value type of the model: a separate stream '
+        'runs them under the five comparison suffixes and judges the selection on the literal clause, in Python',
         'bulk assignment of structural names (parent, children, predecessors, successors) belongs to C16, not to this check',
     ]
 
